@@ -198,4 +198,14 @@ META["C08"] = dict(
         "to observe end-of-stream, and the other direction to keep working.",
    technique="TLA+ spec (Mux.tla close rules, liveness under fairness) + TLC MC + replayed behaviours on in-memory rigs + end-to-end close rig + TLC trace validation (two validators)",
    design_ref="DESIGN.md 3/C08")
+META["C20"] = dict(
+   text="Hostile.tla states the only allowed reactions to hostile input - the session continues correctly (sibling stream both "
+        "ways, new opens) or is closed cleanly (C09's clauses), never a panic, a wedged operation or an effect on another session "
+        "- and which frames are inert by the protocol and therefore must not end the session. TLC enumerates the abstract frame "
+        "alphabet (all single frames, all pairs) as the behaviour generator; each sequence, random byte strings and mutations of "
+        "valid traffic are fed to real Sessions of both roles in virtual time, then probes establish the outcome and "
+        "Trace_Hostile.tla judges it with SessionOutcomeOk; garbage towards the real SOCKS5 / HTTP listeners and inside a "
+        "UDP-over-TCP stream must end that connection only.",
+   technique="TLA+ spec (Hostile.tla reaction rules) + TLC enumeration of the frame alphabet replayed into Sessions + random/mutation inputs + TLC trace validation",
+   design_ref="DESIGN.md 3/C20")
 NOT_YET = "check not built yet in this round (planned: DESIGN.md section 3); not claimed"
